@@ -3,6 +3,7 @@ pub mod c02;
 pub mod c03;
 pub mod c04;
 pub mod c09;
+pub mod c10;
 pub mod c13;
 pub mod c16;
 pub mod conn;
@@ -22,6 +23,7 @@ pub fn all() -> Vec<Arc<dyn Prop>> {
         Arc::new(conn::ConnProp { id: "C07" }),
         Arc::new(conn::ConnProp { id: "C08" }),
         Arc::new(c09::C09),
+        Arc::new(c10::C10),
         Arc::new(notif::NotifProp { id: "C11" }),
         Arc::new(notif::NotifProp { id: "C12" }),
         Arc::new(c13::C13),
